@@ -569,6 +569,38 @@ var helpers = []*helper{
 		call: func(ctx context.Context, s *xmpp.Session) { _, _ = muc.GetConfigIQ(ctx, iqTo, s) }},
 	{name: "carbons.Enable", templates: []string{``},
 		call: func(ctx context.Context, s *xmpp.Session) { _ = carbons.EnableIQ(ctx, s, iqTo) }},
+	// round D: the remaining request helpers of the API (harness/c09/chanfacts.go lists the
+	// exported functions that wait for the peer; evidence: request_helpers_not_exercised)
+	{name: "blocklist.Remove", templates: []string{``},
+		call: func(ctx context.Context, s *xmpp.Session) { _ = blocklist.RemoveIQ(ctx, iqTo, s, remote) }},
+	{name: "blocklist.Report", templates: []string{``},
+		call: func(ctx context.Context, s *xmpp.Session) {
+			_ = blocklist.ReportIQ(ctx, iqTo, s, blocklist.Item{JID: remote, Reason: blocklist.ReasonSpam, Text: "t"})
+		}},
+	{name: "carbons.Disable", templates: []string{``},
+		call: func(ctx context.Context, s *xmpp.Session) { _ = carbons.DisableIQ(ctx, s, iqTo) }},
+	{name: "pubsub.CreateNode", templates: []string{`<pubsub xmlns="http://jabber.org/protocol/pubsub"><create node="n"/></pubsub>`},
+		call: func(ctx context.Context, s *xmpp.Session) { _ = pubsub.CreateNodeIQ(ctx, s, iqTo, "n", nil) }},
+	{name: "pubsub.Delete", templates: []string{``},
+		call: func(ctx context.Context, s *xmpp.Session) { _ = pubsub.DeleteIQ(ctx, s, iqTo, "n", "i1", true) }},
+	{name: "pubsub.GetDefaultConfig", templates: []string{`<pubsub xmlns="http://jabber.org/protocol/pubsub#owner"><default><x xmlns="jabber:x:data" type="form"><field var="a" type="text-single"><value>v</value></field></x></default></pubsub>`},
+		call: func(ctx context.Context, s *xmpp.Session) { _, _ = pubsub.GetDefaultConfigIQ(ctx, s, iqTo) }},
+	{name: "pubsub.SetConfig", templates: []string{``},
+		call: func(ctx context.Context, s *xmpp.Session) { _ = pubsub.SetConfigIQ(ctx, s, iqTo, "n", nil) }},
+	{name: "roster.Set", templates: []string{``},
+		call: func(ctx context.Context, s *xmpp.Session) {
+			q := roster.IQ{IQ: iqTo}
+			q.Query.Item = []roster.Item{{JID: remote, Name: "n", Group: []string{"g"}}}
+			_ = roster.SetIQ(ctx, q, s)
+		}},
+	{name: "roster.Delete", templates: []string{``},
+		call: func(ctx context.Context, s *xmpp.Session) {
+			q := roster.IQ{IQ: iqTo}
+			q.Query.Item = []roster.Item{{JID: remote}}
+			_ = roster.DeleteIQ(ctx, q, s)
+		}},
+	{name: "muc.SetConfig", templates: []string{``},
+		call: func(ctx context.Context, s *xmpp.Session) { _ = muc.SetConfigIQ(ctx, iqTo, nil, s) }},
 	{name: "history.Fetch", templates: []string{`<fin xmlns="urn:xmpp:mam:2" complete="true"><set xmlns="http://jabber.org/protocol/rsm"><first index="0">a</first><last>b</last><count>2</count></set></fin>`},
 		call: func(ctx context.Context, s *xmpp.Session) {
 			_, _ = history.FetchIQ(ctx, history.Query{ID: "q"}, iqTo, s)
@@ -770,7 +802,7 @@ func (an *analysis) locate(file string, line int) (*funcSkel, int) {
 }
 
 func (c *ctx) serve(input string, class string) {
-	if c.stalls[""] >= maxStalls || !c.begin("serve "+common.HexS(input)) {
+	if c.stalls[""] >= maxStalls || !c.begin("serve "+hexz(input)) {
 		return
 	}
 	t0 := time.Now()
@@ -781,7 +813,7 @@ func (c *ctx) serve(input string, class string) {
 	if o.stalled {
 		c.stalls[""]++
 	}
-	c.record("serve "+common.HexS(input), o, class)
+	c.record("serve "+hexz(input), o, class)
 }
 
 func (c *ctx) servex(mode string, k int, stanzas []string, class string) int {
@@ -807,7 +839,7 @@ func (c *ctx) servex(mode string, k int, stanzas []string, class string) int {
 }
 
 func (c *ctx) helper(h *helper, typ, reply, class string) {
-	if c.stalls[h.name] >= maxStalls || !c.begin("helper "+common.HexS(h.name)+" "+typ+" "+common.HexS(reply)) {
+	if c.stalls[h.name] >= maxStalls || !c.begin("helper "+common.HexS(h.name)+" "+typ+" "+hexz(reply)) {
 		return
 	}
 	t0 := time.Now()
@@ -818,7 +850,7 @@ func (c *ctx) helper(h *helper, typ, reply, class string) {
 	if o.stalled {
 		c.stalls[h.name]++
 	}
-	c.record("helper "+common.HexS(h.name)+" "+typ+" "+common.HexS(reply), o, class)
+	c.record("helper "+common.HexS(h.name)+" "+typ+" "+hexz(reply), o, class)
 }
 
 // helperp: a helper against a peer that answers successive requests with successive pages.
@@ -861,7 +893,7 @@ func (c *ctx) replay(lines []string) error {
 			if len(f) != 3 {
 				return fmt.Errorf("bad replay line %q", l)
 			}
-			b, err := common.UnHex(f[2])
+			b, err := unhexz(f[2])
 			if err != nil {
 				return err
 			}
@@ -924,7 +956,7 @@ func (c *ctx) replay(lines []string) error {
 				return fmt.Errorf("bad replay line %q", l)
 			}
 			n, err1 := common.UnHex(f[2])
-			b, err2 := common.UnHex(f[4])
+			b, err2 := unhexz(f[4])
 			h := helperByName(string(n))
 			if err1 != nil || err2 != nil || h == nil {
 				return fmt.Errorf("bad replay line %q", l)
